@@ -68,3 +68,11 @@ Proof.
   vm_compute. reflexivity.
 Qed.
 Print Assumptions C18_model_agrees.
+
+(* the lookup is the same function when the compiler evaluates it (constant
+   expressions: constexpr variables, static_assert, an _ete literal at namespace
+   scope) as when the program does: both complete graphs, generated on this run *)
+Theorem C18_same_function_at_compile_time :
+  g_lookup1_constexpr = g_lookup1 /\ g_lookup2_constexpr = g_lookup2.
+Proof. vm_compute. split; reflexivity. Qed.
+Print Assumptions C18_same_function_at_compile_time.
